@@ -7,15 +7,23 @@ def build():
     ov = vlib.make_overlay('apinode', harness=['main', 'ircserver'])
     return vlib.build_test('.', os.path.join(vlib.BUILD, 'apinode.test'), ov)
 
-def run_seq(prop, tier, test, assumptions, rule, level='model_checking', env=None, extra_cov=None, nshards=None, pre_results=None, t0=None):
+def run_seq(prop, tier, test, assumptions, rule, level='model_checking', env=None, extra_cov=None, nshards=None, pre_results=None, t0=None, variants=None):
     t0 = t0 or time.time()
     budget = float(os.environ.get('VERIF_BUDGET_S', '120' if tier == 'quick' else '1200'))
     binary = build()
     e = {'VERIF_TIER': tier, 'VERIF_DEADLINE': str(int(t0 + budget)), 'GOMAXPROCS': '2'}
     e.update(env or {})
     rs = []
-    for tname in (test if isinstance(test, (list, tuple)) else [test]):
-        rs += vlib.run_workers(binary, tname, nshards or vlib.NCPU, env=e)
+    by_variant = {}
+    for vname, venv in (variants or [('', {})]):
+        ev = dict(e); ev.update(venv)
+        for tname in (test if isinstance(test, (list, tuple)) else [test]):
+            rv = vlib.run_workers(binary, tname, nshards or vlib.NCPU, env=ev)
+            by_variant[vname] = by_variant.get(vname, 0) + sum(r.get('sequences', 0) for r in rv)
+            for r in rv:
+                for v in r.get('violations') or []:
+                    if vname: v['sig'] += ' [' + vname + ']'
+            rs += rv
     rs += list(pre_results or [])
     bysig = {}
     herr = [r['harness_error'] for r in rs if r.get('harness_error')]
@@ -42,5 +50,6 @@ def run_seq(prop, tier, test, assumptions, rule, level='model_checking', env=Non
     }
     for k in ('retries', 'requests', 'refused', 'accepted', 'mixed_encoding_schedules'):
         if any(k in r for r in rs): cov[k] = sum(r.get(k, 0) for r in rs)
+    if variants: cov['sequences_by_variant'] = by_variant
     if extra_cov: cov.update(extra_cov)
     vlib.finish(prop, tier, level, cov, list(bysig.values()), t0, assumptions=assumptions)
